@@ -126,7 +126,11 @@ def create(req, sock, client, server, cfg):
         elif hdr_name == 'HOST':
             host = hdr_value
         elif hdr_name == "SCRIPT_NAME":
-            script_name = hdr_value
+            # header_map="dangerous" lets this name through from any peer,
+            # but only a trusted forwarder may override our environment
+            if (hdr_name in req.forwarder_headers
+                    or "*" in req.forwarder_headers):
+                script_name = hdr_value
         elif hdr_name == "CONTENT-TYPE":
             # a repeated field is combined like every other one (RFC9110
             # 5.3), never reduced to the line that happens to come last
